@@ -426,7 +426,7 @@ def install_os(E):
         fd = E.unopt(args[0])
         E.effect('os.close', fd)
         w = fs(E)
-        E.oblige('pre(os.close).descriptor_is_open', z3.Select(w['open_fds'], fd.t))
+        E.oblige('pre(os.close).descriptor_is_open', z3.Select(w['open_fds'], fd.t), props=getattr(E, 'stub_props', None))
         ofd = z3.Select(w['ofd_of'], fd.t)
         E.w['open_fds'] = z3.Store(w['open_fds'], fd.t, False)
         E.w['flock_owner'] = z3.If(w['flock_owner'] == ofd, z3.IntVal(0), w['flock_owner'])
@@ -468,7 +468,7 @@ def install_os(E):
             raise Unsupported('flock with symbolic operation')
         E.effect('fcntl.flock', fd, op)
         w = fs(E)
-        E.oblige('pre(flock).descriptor_is_open', z3.Select(w['open_fds'], fd.t))
+        E.oblige('pre(flock).descriptor_is_open', z3.Select(w['open_fds'], fd.t), props=getattr(E, 'stub_props', None))
         ofd = z3.Select(w['ofd_of'], fd.t)
         if op & LOCK['LOCK_UN']:
             tag = E.choose([('ok', None), ('OSError', None)], 'flock(LOCK_UN)')
